@@ -89,5 +89,9 @@ package trie2
 //@   purecallback hash
 //@   loop 1: invariant no_cached_hash_used: calls_CachedHash == old(calls_CachedHash) && calls_RecomputedHash >= old(calls_RecomputedHash)
 //@   loop 1: invariant key: keyBits != nil && fresh(keyBits) && trieutils.wf(keyBits)
+//@   splitreturns
+// A value is handed out only when the whole key has been consumed (the obligation that fails on the
+// code before the fix of defect F11: a value node reached early ended the walk).
+//@   ensures value_only_at_full_depth: result1 == nil && result0 != felt.Zero ==> keyBits.len == 0
 //@   ensures recomputed_never_cached: calls_CachedHash == old(calls_CachedHash)
 //@   ensures every_node_rehashed: result1 == nil && result0 != felt.Zero ==> calls_RecomputedHash > old(calls_RecomputedHash)
